@@ -243,7 +243,7 @@ def shard(desc):
     hcases = []
     for i in range(desc.get('nhist', 0)):
         L = rng.choice([3, 10, 100])
-        c = Case(nid(), 'H%d' % L)
+        c = Case(nid(), '%s%d' % (desc.get('hist_prefix', 'H'), L))
         edges = [float(j) for j in range(L + 1)]
         c.op('HR', 0, edges)
         mode = rng.choice(['onebin', 'uniform', 'skewed', 'big'])
@@ -256,6 +256,25 @@ def shard(desc):
         else:
             c.op('HA', 0, [rng.uniform(0, L) for _ in range(rng.randint(1, 50))])
             c.op('H*', 0, rng.choice([3, 1000, 10 ** 6, 10 ** 9]))
+        # some histograms are re-used: reset / serde round trip / clone_from / merge, then filled further - the bound
+        # [0, N/4] refers to the counts the histogram reports, whatever its past
+        if rng.random() < 0.5:
+            for _ in range(rng.randint(1, 3)):
+                how = rng.choice(['reset', 'serde', 'clone', 'merge'])
+                if how == 'reset':
+                    c.op('HZ', 0)
+                elif how == 'serde' and desc.get('hist_serde', True):
+                    c.op('S', 0, rng.choice(['j', 'v']))
+                elif how == 'clone':
+                    c.op('K', 1, 0)
+                    c.op('HR', 0, edges)
+                    c.op('KF', 0, 1)
+                elif how == 'merge':
+                    c.op('HR', 1, edges)
+                    c.op('HA', 1, [rng.uniform(0, L) for _ in range(rng.randint(0, 5))])
+                    c.op(rng.choice(['M', 'H+']), 0, 1)
+                c.op('HA', 0, [rng.uniform(0, L) * rng.choice([1.0, 1.0, 0.1]) for _ in range(rng.randint(0, 12))])
+            res.count('reused_histograms')
         c.op('O', 0)
         cases.append(c)
         hcases.append(c)
@@ -287,10 +306,12 @@ def shard(desc):
     for c in hcases:
         recs = logs.get(c.id)
         o = [r for r in recs if r.kind == 'o']
-        if not o:
-            res.violation(PROP, 'Histogram:harness', 'no observation', c, variant)
+        bad = [r for r in recs if r.kind in ('p', 'e', 'd')]
+        if not o or bad:
+            res.violation(PROP, 'Histogram:%s' % ('panic' if any(r.kind == 'p' for r in bad) else 'harness'),
+                          'no observation' if not o else 'op %d -> %s %s' % (bad[0].op, bad[0].kind, bad[0].rest), c, variant)
             continue
-        kv = o[0].kv
+        kv = o[-1].kv
         bins = [int(t[1:]) for t in kv['bins'].split(',')]
         N = sum(bins)
         res.count('evaluations')
@@ -447,6 +468,12 @@ def run(tier, seed):
                       'seed': seed * 1000003 + s * 7919 + sum(map(ord, variant))} for s in range(nsh)]
             total.merge(common.run_shards(shard, descs))
             total.merge(witness(binary, variant))
+            if variant == 'release':
+                # the const-generic histogram (nightly build): histogram part only
+                nb = build('nightly')
+                hd = [{'name': 'n%d' % s, 'variant': 'nightly', 'binary': nb, 'nseq': 0, 'nhist': max(1, nhist // (4 * nsh)), 'ntiny': 0,
+                       'hist_prefix': 'CH', 'hist_serde': False, 'seed': seed * 31 + s} for s in range(nsh)]
+                total.merge(common.run_shards(shard, hd))
             lop = [(n, t) for n in ((4200, 9000, 70000) if tier == 'quick' else (4200, 9000, 70000, 140000))
                    for t in ('Mean', 'Variance', 'Kurtosis', 'M6', 'WeightedMeanWithError', 'Covariance')]
             dbl = [(t, kk) for t in ('Variance', 'Skewness', 'Kurtosis', 'M6', 'WeightedMeanWithError', 'Covariance') for kk in (31, 33, 40, 60)]
@@ -458,11 +485,11 @@ def run(tier, seed):
     except common.Inconclusive as e:
         total.inconclusive.append(str(e))
     need = {'tiny_subnormal_merge_histories': 500, 'tworuns_histories': 100, 'lopsided_histories': 20, 'doubling_histories': 20, 'sign_checks': 20000, 'range_checks': 20000, 'merge_histories': 1000, 'effective_len_checks': 500,
-            'weighted_range_checks': 500, 'histogram_variance_checks': 2000}
+            'weighted_range_checks': 500, 'histogram_variance_checks': 2000, 'reused_histograms': 300}
     for k in ('offset15', 'ulp', 'denormal', 'mixed', 'constperturb', 'big', 'standard'):
         need['kind_%s' % k] = 50
     return common.finish(PROP, tier, seed, total, RULE, t0, ASSUME, min_events=need,
-                         extra={'builds': [v for v, _ in variants]})
+                         extra={'builds': [v for v, _ in variants] + ['nightly (histogram_const)']})
 
 
 def rejudge(case, recs, res, variant, v):
